@@ -167,9 +167,11 @@ func init() {
 		Items: append([]Item{
 			{Plugin: "sites", Func: "mobius.(*ThreadedNewsYAML).PostArticle", Kinds: []string{"site", "post", "guarded"}},
 			{Plugin: "sites", Func: "mobius.(*ThreadedNewsYAML).DeleteArticle", Kinds: []string{"site", "post"}},
+			{Plugin: "sites", Func: "mobius.(*ThreadedNewsYAML).CreateGrouping", Kinds: []string{"site", "post"}},
 			{Plugin: "sites", Func: "hotline.(*NewsCategoryListData15).GetNewsArtListData", Kinds: []string{"site"}},
 		}, fnItems(nil, "hotline.(*NewsArtList).Read", "hotline.(*NewsArtListData).Read", "hotline.(*NewsCategoryListData15).Read")...),
 		Decided: []string{
+			"CreateGrouping never replaces an existing category or bundle: with the name taken at that path it fails and the item is untouched, with the name free the new item has the requested name and type; the tree is read and written under the mutex and saved only after an insertion",
 			"PostArticle: the previous-article link is at least every article ID collected from the category (sort.Ints contract) and the new ID is that maximum + 1 (it is what the old newest article's next link receives); the article is stored under the new ID with the requested parent; no other entry of the category's article map changes; the result is the result of writing the news file; the tree is only touched under the mutex",
 			"DeleteArticle removes exactly the addressed article (whole-map frame) and returns the result of writing the file",
 			"the article list is built by draining every entry with io.ReadAll through its proved cursor contract (NewsArtList.Read), never by a single bare Read; list encoders NewsArtList / NewsArtListData / NewsCategoryListData15 satisfy their wire layouts (C01)",
